@@ -146,6 +146,73 @@ let readable line =
                                  then (try "\"" ^ unhex t ^ "\"" with _ -> t) else t) (toks line))
 
 
+
+(* ------------------------------------------------------------------ Coq terms for the vm_compute cross-check *)
+let q s = let b = Buffer.create 16 in Buffer.add_char b '"';
+  String.iter (fun c -> if c = '"' then Buffer.add_string b "\"\"" else Buffer.add_char b c) s;
+  Buffer.add_char b '"'; Buffer.contents b
+let qs l = q (implode l)
+let rec z_of_pos' = function XH -> BZ.one | XO p -> BZ.shift_left (z_of_pos' p) 1 | XI p -> BZ.succ (BZ.shift_left (z_of_pos' p) 1)
+let zc = function Z0 -> "0%Z" | Zpos p -> "(" ^ BZ.to_string (z_of_pos' p) ^ ")%Z" | Zneg p -> "(-" ^ BZ.to_string (z_of_pos' p) ^ ")%Z"
+let nc = function N0 -> "0%N" | Npos p -> BZ.to_string (z_of_pos' p) ^ "%N"
+let bc b = if b then "true" else "false"
+let lst f l = "[" ^ String.concat "; " (List.map f l) ^ "]"
+let opt f = function None -> "None" | Some x -> "(Some " ^ f x ^ ")"
+let c_type t = Printf.sprintf "{| st_id := %s; st_name := %s; st_desc := %s; st_size := %s; st_kind := %s; st_signed := %s; st_min := %s; st_max := %s; st_scale := %s; st_offset := %s |}"
+    (nc t.st_id) (qs t.st_name) (qs t.st_desc) (zc t.st_size) (qs t.st_kind) (bc t.st_signed) (qs t.st_min) (qs t.st_max) (qs t.st_scale) (qs t.st_offset)
+let c_unit u = Printf.sprintf "{| su_id := %s; su_name := %s; su_desc := %s; su_kind := %s; su_symbol := %s |}"
+    (nc u.su_id) (qs u.su_name) (qs u.su_desc) (qs u.su_kind) (qs u.su_symbol)
+let c_enum e = Printf.sprintf "{| se_id := %s; se_name := %s; se_desc := %s; se_maxindex := %s; se_values := %s |}"
+    (nc e.se_id) (qs e.se_name) (qs e.se_desc) (zc e.se_maxindex)
+    (lst (fun v -> Printf.sprintf "{| ev_name := %s; ev_index := %s; ev_desc := %s |}" (qs v.ev_name) (zc v.ev_index) (qs v.ev_desc)) e.se_values)
+let rec c_sig = function
+  | SStd (n, d, r, ty, un) -> Printf.sprintf "(SStd %s %s %s %s %s)" (qs n) (qs d) (zc r) (c_type ty) (opt c_unit un)
+  | SEnum (n, d, r, sz, en) -> Printf.sprintf "(SEnum %s %s %s %s %s)" (qs n) (qs d) (zc r) (zc sz) (c_enum en)
+  | SMux (n, d, r, gc, gs, groups) -> Printf.sprintf "(SMux %s %s %s %s %s %s)" (qs n) (qs d) (zc r) (zc gc) (zc gs) (lst (lst c_sig) groups)
+let c_msg m = Printf.sprintf "{| m_name := %s; m_desc := %s; m_static := %s; m_canid := %s; m_id := %s; m_size := %s; m_byteorder := %s; m_cycle := %s; m_receivers := %s; m_sigs := %s |}"
+    (qs m.m_name) (qs m.m_desc) (bc m.m_static) (zc m.m_canid) (zc m.m_id) (zc m.m_size) (qs m.m_byteorder) (zc m.m_cycle) (lst qs m.m_receivers) (lst c_sig m.m_sigs)
+let c_net n = Printf.sprintf "{| nt_name := %s; nt_desc := %s; nt_buses := %s |}" (qs n.nt_name) (qs n.nt_desc)
+    (lst (fun b -> Printf.sprintf "{| b_name := %s; b_desc := %s; b_baud := %s; b_nifs := %s |}" (qs b.b_name) (qs b.b_desc) (zc b.b_baud)
+             (lst (fun x -> Printf.sprintf "{| n_name := %s; n_desc := %s; n_id := %s; n_msgs := %s |}" (qs x.n_name) (qs x.n_desc) (zc x.n_id) (lst c_msg x.n_msgs)) b.b_nifs)) n.nt_buses)
+let c_block_of_obs line = match toks line with
+  | ["H"; n; t] -> Printf.sprintf "H %s %s" n (q (unhex t))
+  | ["P"; t] -> "Para " ^ q (unhex t)
+  | ["B"; t] -> "Bullet " ^ q (unhex t)
+  | ["R"] -> "Rule"
+  | "T" :: nc_ :: rest ->
+    let rec take k l acc = if k = 0 then (List.rev acc, l) else match l with x :: r -> take (k - 1) r (x :: acc) | [] -> failwith "T" in
+    let hdr, rest = take (int_of_string nc_) rest [] in
+    let rec rows k l = if k = 0 then [] else
+        match l with
+        | w :: r -> let cells, r' = take (int_of_string w) r [] in cells :: rows (k - 1) r'
+        | [] -> failwith "T rows" in
+    let rws = match rest with nr :: r -> rows (int_of_string nr) r | [] -> [] in
+    Printf.sprintf "Table %s %s" (lst (fun c -> q (unhex c)) hdr) (lst (lst (fun c -> q (unhex c))) rws)
+  | _ -> failwith "block"
+let c_ent e = Printf.sprintf "{| e_id := %s; e_kind := %s; e_name := %s; e_desc := %s; e_time := %s |}" (qs e.e_id) (qs e.e_kind) (qs e.e_name) (qs e.e_desc) (qs e.e_time)
+let c_stype x = Printf.sprintf "{| ty_ent := %s; ty_kind := %s; ty_size := %s; ty_signed := %s; ty_min := %s; ty_max := %s; ty_scale := %s; ty_offset := %s; ty_refs := %s |}"
+    (c_ent x.ty_ent) (qs x.ty_kind) (zc x.ty_size) (bc x.ty_signed) (qs x.ty_min) (qs x.ty_max) (qs x.ty_scale) (qs x.ty_offset) (zc x.ty_refs)
+let c_sunit x = Printf.sprintf "{| un_ent := %s; un_kind := %s; un_symbol := %s; un_refs := %s |}" (c_ent x.un_ent) (qs x.un_kind) (qs x.un_symbol) (zc x.un_refs)
+let c_senum x = Printf.sprintf "{| en_ent := %s; en_maxindex := %s; en_values := %s; en_refs := %s |}" (c_ent x.en_ent) (zc x.en_maxindex)
+    (lst (fun v -> Printf.sprintf "{| va_ent := %s; va_index := %s |}" (c_ent v.va_ent) (zc v.va_index)) x.en_values) (zc x.en_refs)
+let c_base b = Printf.sprintf "{| sb_ent := %s; sb_kind := %s; sb_sendtype := %s; sb_start := %s; sb_size := %s |}" (c_ent b.sb_ent) (qs b.sb_kind) (opt qs b.sb_sendtype) (zc b.sb_start) (zc b.sb_size)
+let rec c_ssig = function
+  | StrStd (b, ty, un) -> Printf.sprintf "(StrStd %s %s %s)" (c_base b) (c_stype ty) (opt c_sunit un)
+  | StrEnum (b, en) -> Printf.sprintf "(StrEnum %s %s)" (c_base b) (c_senum en)
+  | StrMux (b, h, gs) -> Printf.sprintf "(StrMux %s %s %s)" (c_base b) (bc h) (lst (lst c_ssig) gs)
+let c_smsg m = Printf.sprintf "{| mg_ent := %s; mg_id := %s; mg_priority := %s; mg_size := %s; mg_cycle := %s; mg_delay := %s; mg_startdelay := %s; mg_sendtype := %s; mg_recv := %s; mg_sigs := %s |}"
+    (c_ent m.mg_ent) (zc m.mg_id) (zc m.mg_priority) (zc m.mg_size) (zc m.mg_cycle) (zc m.mg_delay) (zc m.mg_startdelay) (opt qs m.mg_sendtype)
+    (lst (fun r -> Printf.sprintf "{| rc_name := %s; rc_nodeid := %s; rc_eid := %s |}" (qs r.rc_name) (zc r.rc_nodeid) (qs r.rc_eid)) m.mg_recv) (lst c_ssig m.mg_sigs)
+let c_snet n = Printf.sprintf "{| nw_ent := %s; nw_buses := %s |}" (c_ent n.nw_ent)
+    (lst (fun b -> Printf.sprintf "{| bs_ent := %s; bs_baud := %s; bs_builder := {| bd_ent := %s; bd_ops := %s; bd_refs := %s |}; bs_nifs := %s |}"
+             (c_ent b.bs_ent) (zc b.bs_baud) (c_ent b.bs_builder.bd_ent)
+             (lst (fun o -> Printf.sprintf "{| op_kind := %s; op_from := %s; op_len := %s |}" (qs o.op_kind) (zc o.op_from) (zc o.op_len)) b.bs_builder.bd_ops) (zc b.bs_builder.bd_refs)
+             (lst (fun x -> Printf.sprintf "{| ni_number := %s; ni_node := {| nd_ent := %s; nd_nodeid := %s |}; ni_sent := %s; ni_received := %s |}"
+                      (zc x.ni_number) (c_ent x.ni_node.nd_ent) (zc x.ni_node.nd_nodeid) (lst c_smsg x.ni_sent) (lst c_smsg x.ni_received)) b.bs_nifs)) n.nw_buses)
+let coq_buf = Buffer.create 4096
+let coq_checks = ref []
+let coq_budget = ref 0
+
 (* ------------------------------------------------------------------ String() model *)
 let ent = function
   | a :: b :: c :: d :: e :: rest -> ({ e_id = cs a; e_kind = cs b; e_name = cs c; e_desc = cs d; e_time = cs e }, rest)
@@ -301,6 +368,14 @@ let compare_strings idx st report =
           | ["ostr"; k; t] -> (k, if t = "PANIC" then "<panic>" else unhex t) :: obs ()
           | _ -> failwith ("ostr expected: " ^ l)) in
     let observed = obs () in
+    if !coq_budget > 0 then begin
+      (match observed with
+       | ("net", t) :: _ when t <> "<panic>" && String.length t < 60000 ->
+         decr coq_budget;
+         Buffer.add_string coq_buf (Printf.sprintf "Definition s_%s : snet := %s.\nDefinition t_%s : string := %s.\n" idx (c_snet n) idx (q t));
+         coq_checks := Printf.sprintf "check_string s_%s t_%s" idx idx :: !coq_checks
+       | _ -> ())
+    end;
     let model = model_strings n in
     if List.length observed <> List.length model then
       report (Printf.sprintf "String(): %d renderings observed, %d in the model" (List.length observed) (List.length model))
@@ -321,7 +396,8 @@ let compare_strings idx st report =
 
 let () =
   let ic = open_in Sys.argv.(1) in
-  let verbose = Array.length Sys.argv > 2 in
+  let verbose = Array.length Sys.argv > 2 && Sys.argv.(2) = "-v" in
+  let coq_out = if Array.length Sys.argv > 4 && Sys.argv.(2) = "--coq" then (coq_budget := int_of_string Sys.argv.(4); Some Sys.argv.(3)) else None in
   let all = ref [] in
   (try while true do all := input_line ic :: !all done with End_of_file -> ());
   let st = { lines = List.rev !all } in
@@ -334,6 +410,10 @@ let () =
        let rec obs () = match pop st with "endobs" -> [] | l -> l :: obs () in
        let observed = obs () in
        incr cases;
+       if !coq_budget > 0 && not obs_err && List.length observed < 400 then begin
+         Buffer.add_string coq_buf (Printf.sprintf "Definition n_%s : net := %s.\nDefinition o_%s : list block := %s.\n" idx (c_net net) idx (lst c_block_of_obs observed));
+         coq_checks := Printf.sprintf "check_md n_%s o_%s" idx idx :: !coq_checks
+       end;
        let model = md net in
        let model_lines = List.map show_block (blocks net) in
        let model_err = (match model with Ok _ -> false | Err -> true) in
@@ -358,5 +438,13 @@ let () =
        if verbose then List.iter (fun l -> print_endline ("  model: " ^ readable l)) model_lines
      done
    with Failure m -> Printf.printf "DRIVER-ERROR %s\n" m; incr bad);
+  (match coq_out with
+   | Some f ->
+     let oc = open_out f in
+     output_string oc "From Coq Require Import ZArith List String.\nFrom Acme.C16 Require Import Model ModelStr ModelChk.\nImport ListNotations.\nLocal Open Scope string_scope.\n";
+     Buffer.output_buffer oc coq_buf;
+     output_string oc (Printf.sprintf "Definition M := Eval vm_compute in [%s].\nPrint M.\n" (String.concat "; " (List.rev !coq_checks)));
+     close_out oc
+   | None -> ());
   Printf.printf "STRINGS %d\n" !str_compared;
   Printf.printf "CASES %d MISMATCHES %d\n" !cases !bad
